@@ -160,6 +160,10 @@ def run(ctx):
     from .c09 import per_instance_state, record_completeness
     per_instance_state(ctx, 'C15.R4')
     record_completeness(ctx, 'C15.R4')
+    # the record of one step is not built inside the memoised result of an observer: a later recipe that starts from
+    # an equal container would be handed the changed set
+    from .c10 import cached_results_intact
+    cached_results_intact(ctx, 'C15.R4')
     # get_amount_remaining: mode/index agreement
     gi = model.func('Recipe.get_amount_remaining')
     gf = ctx.flow(gi.qualname)
